@@ -179,8 +179,8 @@ theorem reverse_gid (s : Seg) (mark : Nat → Bool) (h : GidOK N s) : GidOK N (s
   rw [this]
   exact h j
 
-theorem runPassDir_PGid (p : PassT) (c : Ctx) (fuel : Nat) (h : PGid N K c) {c' : Ctx}
-    (e : runPassDir p c fuel = .ok (some c')) : PGid N K c' := by
+theorem runPassDir_PGid (p : PassT) (c : Ctx) (fuel : Nat) (ar : Bool) (h : PGid N K c) {c' : Ctx}
+    (e : runPassDir p c fuel ar = .ok (some c')) : PGid N K c' := by
   unfold runPassDir at e
   split at e
   · cases e; exact h
@@ -196,43 +196,14 @@ theorem runPassDir_PGid (p : PassT) (c : Ctx) (fuel : Nat) (h : PGid N K c) {c' 
           · exact ⟨h.1, reverse_gid _ _ h.2⟩
           · exact h
 
-theorem runRange_PGid (passes : Array PassT) (c : Ctx) (lo hi fuel : Nat) (h : PGid N K c)
-    {c' : Ctx} (e : runRange passes c lo hi fuel = .ok (some c')) : PGid N K c' := by
-  unfold runRange at e
-  simp only [] at e
-  have : ∀ (ks : List Nat),
-      ∀ (acc : Except String (Option Ctx)), (∀ x, acc = .ok (some x) → PGid N K x) →
-      ∀ x, ks.foldl (fun (acc : Except String (Option Ctx)) k =>
-        match acc with
-        | .ok (some c1) =>
-          (match runPassDir (passes.getD (lo + k) default) c1 fuel with
-           | .ok (some c2) => if c2.seg.numGlyphs > 0 ∧ c2.seg.numGlyphs > c.seg.numGlyphs * 64 then .ok none else .ok (some c2)
-           | o => o)
-        | o => o) acc = .ok (some x) → PGid N K x := by
-    intro ks
-    induction ks with
-    | nil => intro acc ha x hx; exact ha x hx
-    | cons k rest ih =>
-      intro acc ha x hx
-      simp only [List.foldl_cons] at hx
-      refine ih _ ?_ x hx
-      intro y hy
-      split at hy
-      · rename_i c1
-        split at hy
-        · rename_i c2 hrp
-          split at hy
-          · cases hy
-          · cases hy
-            exact runPassDir_PGid hN hK _ c1 fuel (ha c1 rfl) hrp
-        · rename_i o hno
-          exact absurd hy (by
-            intro hh
-            exact hno y (by rw [hh]))
-      · rename_i o hno
-        exact absurd hy (fun hh => hno y hh)
-  exact this (List.range (hi - lo)) (.ok (some (c.beginRange (c.seg.numGlyphs * 64))))
-    (fun x hx => by cases hx; exact ⟨h.1, h.2⟩) c' e
+theorem runPhase_PGid (passes : Array PassT) (bPass : Nat) (c : Ctx) (lo hi : Nat) (dobidi : Bool) (fuel : Nat) (h : PGid N K c)
+    {c' : Ctx} (e : runPhase passes bPass c lo hi dobidi fuel = .ok (some c')) : PGid N K c' := by
+  refine runPhase_ind (PGid N K) passes bPass lo hi dobidi fuel
+    (fun ar k _ _ c1 c2 h1 e1 => runPassDir_PGid hN hK _ c1 fuel ar h1 e1) (fun x l hx => ⟨hx.1, hx.2⟩) (fun x hx => ?_) c h e
+  unfold bidiStep
+  split
+  · exact ⟨hx.1, reverse_gid _ _ hx.2⟩
+  · exact hx
 
 end engine
 
@@ -319,7 +290,7 @@ theorem shape_gid {N : Nat} (hN : 0 < N) (font : Font) (hcm : ∀ u, font.cmap u
     · cases e
     · rename_i c1 h1
       have w0 : PGid N font.classes (initCtx font text dir) := ⟨rfl, initSeg_gid hN font hcm text dir⟩
-      have w1 := runRange_PGid hN hK _ _ _ _ _ w0 h1
+      have w1 := runPhase_PGid hN hK _ _ _ _ _ _ _ w0 h1
       split at e
       · cases e
       · rename_i seg' ci' hre
@@ -330,7 +301,7 @@ theorem shape_gid {N : Nat} (hN : 0 < N) (font : Font) (hcm : ∀ u, font.cmap u
         · rename_i c2 h2
           simp only [Except.ok.injEq, Option.some.injEq, Prod.mk.injEq] at e
           rw [← e.1]
-          exact (runRange_PGid hN hK _ _ _ _ _ (show PGid N font.classes (c1.withSeg seg') from ⟨w1.1, w2⟩) h2).2
+          exact (runPhase_PGid hN hK _ _ _ _ _ _ _ (show PGid N font.classes (c1.withSeg seg') from ⟨w1.1, w2⟩) h2).2
 
 /-! ## the hypothesis as a test that can be run -/
 
